@@ -8,7 +8,58 @@ ASSUME_COMMON = [
 ]
 
 
+# What the workloads gained after the white-box review (DESIGN 8.8); appended to the rule text
+# of the evidence files so that they describe what actually ran.
+ADDED = {
+    'C01': 'every 5th sequence has a finalize in the middle; every record by index and then all of them in sequence on ONE reader; '
+           'read_as with the index; one part beyond 2^16 vertices for every Z / M multi-vertex type; polygons converted from polylines '
+           '(open rings); vertex-less rings / patches; a role change is the known finding only when the documented f64 test yields the '
+           'role read back and disagrees with the exact orientation on the stored ring or its reversal',
+    'C02': 'files without any record in every route x ending; large cases for every type (33 / 65 / 129 and 2^8..2^13 +-1 vertices, '
+           'parts, records; 65537 records); a finalize before the first write in every 11th file; ShapeWriter::new for every 9th cursor '
+           'file; write_shape followed by the consuming write_shapes',
+    'C04': 'size hint and items after seek(k); iteration after the random accesses on the same reader; files of 16385 / 32769 records; '
+           '.shp inside a stem or directory name; finalize before the first write; files without records',
+    'C05': 'Polyline*::new and Multipoint*::from(Vec); a finalize between two writes; the large part also as FIRST part; files of 9..40 '
+           'records; vertex-less rings / patches',
+    'C06': 'the complete reader\'s typed routes; a record beyond 64 KiB / 4100 records per type; sequences of 65..140 shapes; mixed '
+           'sequences; malformed records of another type',
+    'C07': 'size_hint before every next(); seek to n+1, n+1000, usize::MAX followed by size_hint / next / skip; from_path and '
+           'read_shapes(path) on every 16th input; class (g) many real parts without points; class (h) VALID files with parts of 1025 / '
+           '4097 vertices and 3000 two-vertex parts; forged part counts vouched for by the lengths; 65537+ real points behind a forged count; '
+           'the sweep stops after three confirmed hangs',
+    'C08': 'data sets addressed as NAME.SHP; the bulk route by path and for 65 / 129 pairs; iter.last() / iter.count(); seek(k) repeated '
+           'after a pair was consumed; readers without index and readers used twice; a record beyond 2^17 bytes in the long histories',
+    'C09': 'a shape pair whose first shape has NaN X and Y everywhere (every type); after every finalize the files are also judged on '
+           'their own (100-byte header, length field = size, one record and one index entry per shape); no I/O at a drop that follows a finalize',
+    'C10': 'extra histories per (T, U, V): an index-less writer, seven accepted writes before a refusal, a third type V after U was '
+           'refused, and a first shape whose own type is NullShape (user-defined)',
+    'C11': 'byte-level cuts for six types in the quick tier; a second class in which one destination dies for good while the other keeps working',
+    'C12': 'four writer kinds (with index, complete Writer, ShapeWriter::new, one consuming write_shapes call); seven error kinds; after a '
+           'failed finalize a second attempt on the still broken destination must fail, the retry after healing must reach the flush of '
+           'every destination, and every second persistent case lets the writer go while the destination still fails; shapes of 33 / 65 / '
+           '300 vertices per part under the short-write schedules',
+    'C13': 'every cut also through ShapeReader::read, Reader::read, the pair iterator and read_nth_shape for every index; a seek-first '
+           'traversal (the public seek is a call under test); the fault enumeration also on a padded layout read through its index; seven '
+           'error kinds; PointZ records without measure',
+    'C14': 'record numbers unrelated to the index position; indexes of zero entries; gaps around 4 KiB and 8 KiB; random access in '
+           'ascending order; read() with the index; shapefile::read_shapes and shapefile::read (with a table of n rows) on every pair',
+    'C15': 'every history also ended through one iterator adaptor (skip(1), nth(1), count(), last()); two configurations on a padded layout',
+    'C16': 'every arm of the four macros; every 50th case one ring of 33..200 vertices, every 97th 33..70 rings; first / last vertex '
+           'differing in a no-data measure',
+    'C17': 'see C07 (same sweep, allocation windows)',
+    'C18': 'every shape also as SECOND record of a file; doubled vertices; 63..300 parts; vertex-less parts; NaN X / Y',
+    'C19': 'the header image of the sweep varies with the code (version word, length, box); record-level codes requested as every type '
+           'they resemble (byte shifts, byte swap, negation, one extra bit); read_nth_shape(_as) through an index; the codes the writer stores',
+    'C20': 'FirstRing opening any group; components up to 120 vertices; repeated coordinates in the geo -> shape lane; ring groups in front '
+           'of a strip / fan and non-empty geometry collections among the refusals; PointTrait::dim, coord() = None is a violation, every '
+           'index of every view; the *_unchecked accessors first run in a probe process',
+}
+
+
 def _mk(prop, tier, seed, level, rule, assumptions=None, exhaustive=False):
+    if prop in ADDED:
+        rule = rule + '. ALSO (DESIGN 8.8): ' + ADDED[prop]
     return Verdict(prop, tier, seed, level, rule, ASSUME_COMMON + (assumptions or []), exhaustive)
 
 
